@@ -202,6 +202,29 @@ func reachCase(c XCase) *xmss.XMSS {
 		for j := uint32(1); j <= c.Idx; j++ {
 			k.SetIndex(j)
 		}
+	case "step64": // SetIndex stepping with a real Sign at every index == 63 mod 64
+		for j := uint32(0); j < c.Idx; j++ {
+			if j > 0 {
+				k.SetIndex(j)
+			}
+			if j%64 == 63 {
+				k.Sign(msgFor(c.Cfg, j, c.Salt))
+			}
+		}
+		if c.Idx > 0 {
+			k.SetIndex(c.Idx)
+		}
+	case "windows": // signatures in 1024-leaf windows around 0, n/4, n/2, 3n/4 and the end
+		n := uint32(1) << uint(c.Cfg.H)
+		windowsWalk(n, c.Idx, func(i uint32, jumped bool) bool {
+			if jumped {
+				k.SetIndex(i)
+			}
+			if i < c.Idx {
+				k.Sign(msgFor(c.Cfg, i, c.Salt))
+			}
+			return true
+		})
 	case "jump2":
 		if c.From > 0 {
 			k.SetIndex(c.From)
@@ -245,4 +268,24 @@ func jumpDelta(rng *rt.Rand, cur, n uint32) uint32 {
 		d = room
 	}
 	return d
+}
+
+// windowsWalk visits indices 0..upto in the "windows" pattern: consecutive
+// except that position 512 of every quarter jumps ahead to 512 before the next
+// quarter boundary. visit returns false to stop.
+func windowsWalk(n, upto uint32, visit func(i uint32, jumped bool) bool) {
+	q4 := n / 4
+	for i := uint32(0); i <= upto && i < n; i++ {
+		jumped := false
+		if q4 > 1024 && i < n-1024 && i%q4 == 512 {
+			i += q4 - 1024
+			jumped = true
+			if i > upto {
+				return
+			}
+		}
+		if !visit(i, jumped) {
+			return
+		}
+	}
 }
